@@ -226,7 +226,9 @@ ENC_ASSUME = COMMON_ASSUME + [
     "expected frames come from an independent protocol model written in the harness (harness/enc.cpp buildModel), not from the library",
     "the encoder's counter start value is installed through the ASAM_CMP_VERIF friend hook (any 16-bit value)",
 ]
-PROPS["C07"] = {"jobs": lambda: enc_jobs(["h_enc_model"]) + enc_twice_jobs() + enc_big_jobs(), "assumptions": ENC_ASSUME,
+PROPS["C07"] = {"jobs": lambda: enc_jobs(["h_enc_model"]) + enc_twice_jobs() + enc_big_jobs(), "assumptions": ENC_ASSUME + [
+    "64 KiB shapes (payload 65534/65535, max 32768..65559): copies transfer a 48-byte prefix only (whole regions still checked for accessibility), wire-header accesses are bytewise, and the query is decided by Z3 4.8.12 through cbmc --z3; single-packet batches; contents beyond the first 24 payload bytes and padding contents are outside"],
+                "technique": "bounded symbolic execution of the real code (clang IR -> ll2c -> CBMC; SAT back end MiniSat, SMT back end Z3 for the 64 KiB shapes), unwinding assertions on, counterexamples replayed natively",
                 "level": "bounded symbolic model checking of Encoder::encode against an independent frame model, all contents symbolic per shape"}
 PROPS["C08"] = {"jobs": lambda: enc_jobs(["h_enc_model"]) + enc_twice_jobs(), "assumptions": ENC_ASSUME,
                 "level": "bounded symbolic model checking of Encoder::encode against an independent segmentation/aggregation model"}
@@ -349,7 +351,8 @@ def c04_jobs():
 
 PROPS["C04"] = {"jobs": lambda: c04_jobs() + c04_hist_jobs() + _gate_jobs(), "assumptions": COMMON_ASSUME + [
     "declared message lengths, message count, padding/truncation amounts and the version byte are concrete shape parameters",
-    "history quantifier: this check covers a fresh decoder; independence from earlier history is C17/C18's step lemma (an unsegmented message only erases its endpoint's entry)",
+    "history quantifier: h_dec_wire runs on a fresh decoder (typed payloads, truncation, padding); decoders with a history run through the sequence harness seq.cpp with C04 labels (an open message, then every two-frame continuation incl. frames that carry two messages; generic payload type); longer histories rest on C17/C18's step lemmas",
+    "the message gate (a message is decoded iff it lies completely inside the frame) is decided separately with the declared length symbolic (h_packet_gate)",
     "validity oracle is written independently in harness/dec.cpp expectValid; cases the property leaves open (CAN error position without flags, Ethernet tx-port-down/truncated, interface status > 2) are not asserted either way"],
     "level": "bounded symbolic model checking of decode against an independent big-endian reader and structure rules"}
 
